@@ -68,8 +68,8 @@ Sparse(r) == [f \in {g \in FieldNames : r[g] # Base[g]} |-> r[f]]
 CONSTANT Export
 ASSUME \A c \in Cover(0) : LemmaCodec(c.r)
 ASSUME \A i \in 1..5 : LemmaCodec(SeqRec[i])
-\* the reason survives a reload exactly when it does not rest on LastErr alone (E1): design-level statement of the finding
-ASSUME \A c \in G2 : ReasonSurvives(c.r) <=> ~(c.r["Data.Cancel"] = "nil" /\ c.r["Data.LastErr"] = "some")
+\* P_C14_reason on the design: the reason survives the reload of every record (E1: the written record carries the error text)
+ASSUME \A c \in Cover(0) : c.r["Data"] = "present" => ReasonSurvives(c.r)
 ASSUME Export =>
     LET cs == CoverSeq(0) IN
     /\ JsonSerialize("fields.json", [fields |-> [i \in 1..NF |-> FT[i] @@ [classes |-> Classes(FT[i].name)]], base |-> Base])
